@@ -8,7 +8,7 @@ rm -rf $wt; mkdir -p /tmp/seedchk
 git -C /repo worktree add -q --detach $wt HEAD || exit 2
 cd $wt
 feat=""
-if [ "$id" = "C17" ] || [ "$id" = "C18" ]; then
+if [ "${id:0:3}" = "C17" ] || [ "${id:0:3}" = "C18" ]; then
   cat >> Cargo.toml <<'EOT'
 
 [patch.crates-io]
